@@ -495,6 +495,9 @@ func init() {
 		for _, l := range []string{"4", "20"} {
 			jobs = append(jobs, vx.Job{Scenario: "adminapi.bfs", Params: vx.P("depth", "2", "alphabet", "reduced", "uidlen", l), Weight: 4})
 		}
+		// the upload round that follows a deletion / an exhausted credit when the user's last session has already gone
+		jobs = append(jobs, vx.Job{Scenario: "panel.usage", Params: vx.P("sessions", "0.1", "ops", "up0.1:30,close0.1,delete0,round", "seq", "1", "db", "bolt"), Bound: 0, Weight: 3},
+			vx.Job{Scenario: "panel.usage", Params: vx.P("sessions", "0.1", "ops", "up0.1:300,close0.1,round", "upcredit", "200", "seq", "1", "db", "bolt"), Bound: 0, Weight: 3})
 		return jobs
 	})
 }
